@@ -662,17 +662,30 @@ type vRates struct {
 	// other direction must show
 	peerPpm, defPpm     int64
 	peerPpmIn, defPpmIn int64
+	// the L-BTC rates differ from the BTC ones as well (same reason)
+	peerPpmL, defPpmL     int64
+	peerPpmInL, defPpmInL int64
 }
 
-func (r vRates) peer(op premium.OperationType) int64 {
-	if op == premium.SwapIn {
+func (r vRates) peer(asset premium.AssetType, op premium.OperationType) int64 {
+	switch {
+	case asset == premium.LBTC && op == premium.SwapIn:
+		return r.peerPpmInL
+	case asset == premium.LBTC:
+		return r.peerPpmL
+	case op == premium.SwapIn:
 		return r.peerPpmIn
 	}
 	return r.peerPpm
 }
 
-func (r vRates) def(op premium.OperationType) int64 {
-	if op == premium.SwapIn {
+func (r vRates) def(asset premium.AssetType, op premium.OperationType) int64 {
+	switch {
+	case asset == premium.LBTC && op == premium.SwapIn:
+		return r.defPpmInL
+	case asset == premium.LBTC:
+		return r.defPpmL
+	case op == premium.SwapIn:
 		return r.defPpmIn
 	}
 	return r.defPpm
@@ -710,12 +723,12 @@ func vPremiumGetRate(p *premium.BBoltPremiumStore, peer string, asset premium.As
 		if !r.defSet {
 			return nil, premium.ErrRateNotFound
 		}
-		return premium.NewPremiumRate(asset, operation, premium.NewPPM(r.def(operation)))
+		return premium.NewPremiumRate(asset, operation, premium.NewPPM(r.def(asset, operation)))
 	}
 	if !r.peerSet {
 		return nil, premium.ErrRateNotFound
 	}
-	return premium.NewPremiumRate(asset, operation, premium.NewPPM(r.peer(operation)))
+	return premium.NewPremiumRate(asset, operation, premium.NewPPM(r.peer(asset, operation)))
 }
 
 // vPremiumSetting: the same rates for every (asset, operation) of the one peer of a harness run;
@@ -723,7 +736,9 @@ func vPremiumGetRate(p *premium.BBoltPremiumStore, peer string, asset premium.As
 func vPremiumSetting(w *vWorld, peer string) *premium.Setting {
 	w.rates = vRates{peerSet: zzverif.Bool("rate.peer.set"), peerPpm: zzverif.I64("rate.peer.ppm"),
 		defSet: zzverif.Bool("rate.default.set"), defPpm: zzverif.I64("rate.default.ppm"),
-		peerPpmIn: zzverif.I64("rate.peer.ppm.in"), defPpmIn: zzverif.I64("rate.default.ppm.in")}
+		peerPpmIn: zzverif.I64("rate.peer.ppm.in"), defPpmIn: zzverif.I64("rate.default.ppm.in"),
+		peerPpmL: zzverif.I64("rate.peer.ppm.lbtc"), defPpmL: zzverif.I64("rate.default.ppm.lbtc"),
+		peerPpmInL: zzverif.I64("rate.peer.ppm.lbtc.in"), defPpmInL: zzverif.I64("rate.default.ppm.lbtc.in")}
 	vCurWorld = w
 	if zzverif.Symbolic() {
 		zzverif.Override("(*github.com/elementsproject/peerswap/premium.BBoltPremiumStore).GetRate", vPremiumGetRate)
@@ -755,11 +770,11 @@ func vPremiumSetting(w *vWorld, peer string) *premium.Setting {
 	for _, a := range []premium.AssetType{premium.BTC, premium.LBTC} {
 		for _, o := range []premium.OperationType{premium.SwapIn, premium.SwapOut} {
 			if w.rates.peerSet {
-				r, _ := premium.NewPremiumRate(a, o, premium.NewPPM(w.rates.peer(o)))
+				r, _ := premium.NewPremiumRate(a, o, premium.NewPPM(w.rates.peer(a, o)))
 				ps.SetRate(context.Background(), peer, r)
 			}
 			if w.rates.defSet {
-				r, _ := premium.NewPremiumRate(a, o, premium.NewPPM(w.rates.def(o)))
+				r, _ := premium.NewPremiumRate(a, o, premium.NewPPM(w.rates.def(a, o)))
 				ps.SetDefaultRate(context.Background(), r)
 			}
 		}
